@@ -8,7 +8,6 @@ Open Scope N_scope.
 
 Definition c03_conf : pconf := mkConf [] PNo 0 0 false false false false false false false.
 Definition c03_cs : amap pconf := [(0, c03_conf)].
-Definition c03_wf (cs : amap pconf) : bool := true.   (* no well-formedness condition is needed *)
 
 (* F20/F21 (window commit): the instance has passed its "am I being terminated" check, the shutdown's stop
    finds it Pending, marks it terminated and returns; the command is launched after ShutDownProject returned. *)
@@ -20,8 +19,8 @@ Definition evs_c03_commit : list (tid * event) := [
   (5, EStopReturn 1); (5, EShutdownEnd); (5, EShutdownUnlocked); (5, EApiReturn true);
   (2, EStarted); (2, EState 1 SRunning); (2, ELaunch true)].
 
-Lemma c03_refuted : exists cs ord evs s, c03_wf cs = true /\ accept (init cs ord) evs = Some s /\ holds_C03 cs evs = false.
-Proof. exists c03_cs, false, evs_c03_commit. eexists. split; [reflexivity|]. split; vm_compute; reflexivity. Qed.
+Lemma c03_refuted : exists cs ord evs s, accept (init cs ord) evs = Some s /\ holds_C03 cs evs = false.
+Proof. exists c03_cs, false, evs_c03_commit. eexists. split; vm_compute; reflexivity. Qed.
 
 (* the history above went through the commit window only and nobody escaped the snapshot *)
 Lemma c03_refuted_in_commit_window :
